@@ -5,16 +5,19 @@
 (* file per working directory.  Working directories: "in" = the analysed     *)
 (* directory itself, "parent" = its parent, "sub" = a sub-directory of it,   *)
 (* "other" = unrelated.  Report contents are abstract: "absent", "junk"      *)
-(* (other content), "sol" (text that looks like Solidity), "R" = the report  *)
-(* of the tree produced from a clean state.                                  *)
+(* (other content), "long" (other content longer than any report), "sol"     *)
+(* (text that looks like Solidity), "R" / "R1" = the report of the tree for   *)
+(* all patterns / for one selected pattern, produced from a clean state.      *)
 (***************************************************************************)
 EXTENDS Naturals, Sequences, FiniteSets
 
 Cwds == {"in", "parent", "sub", "other"}
-Stale == {"absent", "junk", "sol", "R"}
+Stale == {"absent", "junk", "long", "sol", "R"}       \* "long": other content, longer than any report
+Modes == {"full", "one"}      \* all patterns / a configuration file selecting a single pattern: reports "R" and "R1"
+ReportOf(mode) == IF mode = "full" THEN "R" ELSE "R1"
 
 \* what a run in working directory c does to the map of report files
-RunEffect(rep, c) == [rep EXCEPT ![c] = "R"]
+RunEffect(rep, c, mode) == [rep EXCEPT ![c] = ReportOf(mode)]
 
 \* observation of one real run: which paths changed, and whether the report equals the clean one
 \* obs = [exit, changed (sequence of paths), report_is_clean, report_path]
